@@ -39,7 +39,7 @@ m = {
                  "kind_free_text": "pure-Python runtime-monitoring kit: workload generators, reference models, snapshot contracts, trace checkers, three-valued verdicts, evidence writer; launcher ./vcheck"}],
     "checks": checks,
     "not_applicable": na,
-    "notes": "Runtime monitoring of a single-threaded pure-Python library: no sanitizers/race detectors apply (DESIGN.md section 1). Tree under test = $VERIF_REPO (default /repo), imported from its working tree. exit 0 held / 1 VIOLATION / 2 INCONCLUSIVE (monitor observed nothing, watchdog). Known findings: known_findings.json.",
+    "notes": "Runtime monitoring of a single-threaded pure-Python library: no sanitizers/race detectors apply (DESIGN.md section 1). Tree under test = $VERIF_REPO (default /repo), imported from its working tree. exit 0 held / 1 VIOLATION / 2 INCONCLUSIVE (monitor observed nothing, watchdog). Known findings: known_findings.json. Every quick check also runs its first shard in three child processes, in parallel (python -O -X dev; harness calls by keyword + DEBUG logging + warnings as errors; two threads hammering the library on data of their own) and thorough tiers distribute these modes over their shards; VERIF_NO_SIDE_SHARDS=1 switches the quick side shards off, VERIF_JOBS caps the processes of a thorough tier.",
 }
 with open(os.path.join(here, "MANIFEST.json"), "w") as f:
     json.dump(m, f, indent=1)
